@@ -123,10 +123,11 @@ DoGo(g) == CmdGo(CanonicalAnswer) /\ EmitGo(g) /\ Step /\ UNCHANGED <<game, olde
 NoOrder == <<>>
 GenGoDepth == DoGo(GoRec(RandomElement(IF Profile = "determinism" THEN 1..4 ELSE IF Profile = "pressure" THEN {6, 7}
                                       ELSE IF Profile = "heavy" THEN (IF n <= 3 THEN {8} ELSE {7})
-                                      ELSE IF Profile = "huge" THEN {17} ELSE 1..3),
+                                      ELSE IF Profile = "huge" THEN {17} ELSE 0..3),
                         -1, -1, -1, -1, -1, NoOrder))
 GenGoMovetime == DoGo(GoRec(-1, RandomElement({0, 1, 5, 50}), -1, -1, -1, -1, NoOrder))
-GenGoDepthMovetime == DoGo(GoRec(RandomElement(1..6), RandomElement({0, 1, 5, 50}), -1, -1, -1, -1, NoOrder))
+\* ("whatever the depth limit": depth 0, and depths at and beyond the engine's internal limits - only together with a move time)
+GenGoDepthMovetime == DoGo(GoRec(RandomElement(0..6 \cup {63, 64, 65, 100, 255, 256, 1000}), RandomElement({0, 1, 5, 50}), -1, -1, -1, -1, NoOrder))
 GenGoClock == LET full == RandomElement({TRUE, TRUE, FALSE})
               IN DoGo(GoRec(-1, -1, RandomElement(Clocks), RandomElement(Clocks),
                             IF full THEN RandomElement(Incs) ELSE -1, IF full THEN RandomElement(Incs) ELSE -1,
